@@ -464,7 +464,93 @@ def r7_every_iteration_accounts(prog, res, sev):
     res.floor("R7", "instance steps in the two data passes", n, 4)
 
 
+R8_EXEMPT = {
+    "InstMgr::VerifyInstances": "rval is lowered to SEVERITY_INCOMPLETE in the branch that increments errorCount, and the raise on err is guarded by "
+                                "errorCount != 0: the returned value is not milder (the walk does not correlate the counter with rval)",
+}
+
+
+def r8_returned_severity(prog, res, sev):
+    """A reader that has recorded a violation in the caller's error descriptor (GreaterSeverity with a constant <= INCOMPLETE) and then
+    returns a *clean* severity - or a value that has nothing to do with that descriptor - hands its callers (which assign or merge the
+    returned value) a verdict that forgets the violation.  On every path that is consistent in its flag variables: after such a raise
+    the function returns err->severity(), a constant <= INCOMPLETE, a local known to hold such a constant, or the result of a call
+    that was given the same descriptor."""
+    import pathstate
+    from engines import call_args
+    INC = sev["SEVERITY_INCOMPLETE"]
+
+    def core(n):
+        n = strip(n)
+        while n is not None and n["k"] == "Cast" and n.get("ch"):
+            n = strip(n["ch"][0])
+        return n
+    n = 0
+    nret = 0
+    for f in prog.all_functions():
+        if f.component == "test" or f.cfg is None:
+            continue
+        rt = f.tyname(f.raw.get("ret")) if isinstance(f.raw.get("ret"), int) else ""
+        if "Severity" not in rt:
+            continue
+        eps = [p_ for p_ in f.params if "ErrorDescriptor" in (f.tyname(p_["t"]) if isinstance(p_.get("t"), int) else "")]
+        if not eps:
+            continue
+        d = eps[0]["d"]
+        n += 1
+        hits = {}
+        checked = set()
+
+        def on_node(nd, ts, env, d=d, hits=hits, checked=checked):
+            k = nd["k"]
+            if k == "Call" and (nd.get("fn") or "").endswith("GreaterSeverity") and nd.get("ch"):
+                r = core(nd["ch"][0])
+                if r is not None and r.get("d") == d:
+                    a = call_args(nd)
+                    v = core(a[0]).get("val") if a and core(a[0]) is not None else None
+                    if isinstance(v, int) and v <= INC:
+                        return (v, nd["l"]) if ts is None or v < ts[0] else ts
+                return ts
+            if k == "Return" and nd.get("ch") and nd["ch"][0] is not None:
+                checked.add(nd["i"])
+                if ts is None:
+                    return ts
+                e = core(nd["ch"][0])
+                ok = False
+                if e is not None and e["k"] == "Call":
+                    if (e.get("fn") or "").endswith("severity") and e.get("ch") and core(e["ch"][0]) is not None and core(e["ch"][0]).get("d") == d:
+                        ok = True
+                    elif any(core(a) is not None and core(a).get("d") == d for a in call_args(e)):
+                        ok = True
+                elif e is not None and isinstance(e.get("val"), int):
+                    ok = e["val"] <= INC
+                elif e is not None and e["k"] == "Ref" and isinstance(env.get(e.get("d")), int):
+                    ok = env[e["d"]] <= INC
+                if not ok:
+                    hits.setdefault(nd["i"], (nd, ts))
+            return ts
+        try:
+            pathstate.walk(f, None, on_node)
+        except pathstate.Budget as ex:
+            res.broke("R8: %s" % ex)
+            continue
+        nret += len(checked)
+        if f.name in R8_EXEMPT:
+            res.add("R8.returned_severity_keeps_violation", "R8|%s|%s" % (f.relfile(), f.name), f.where(), True,
+                    "exempt: %s" % R8_EXEMPT[f.name], assume=R8_EXEMPT[f.name])
+            continue
+        bad = sorted(hits.values(), key=lambda h: h[0]["l"])
+        res.add("R8.returned_severity_keeps_violation", "R8|%s|%s" % (f.relfile(), f.name), f.where(bad[0][0]) if bad else f.where(), not bad,
+                "on no path does the function record a violation in `%s` and return a clean or unrelated severity" % eps[0]["n"] if not bad else
+                "line %s records severity %s in `%s`, and on the same path the function returns `%s`: the caller assigns the returned value, "
+                "so the violation is forgotten and the file can be reported clean" %
+                (bad[0][1][1], {v: k for k, v in sev.items()}.get(bad[0][1][0], bad[0][1][0]), eps[0]["n"], expr_str(bad[0][0]["ch"][0])[:80]))
+    res.floor("R8.returned_severity_keeps_violation", "functions returning Severity with an ErrorDescriptor parameter", n, 60)
+    res.info["r8_returns_checked"] = nret
+
+
 def run(prog, res, sev):
+    r8_returned_severity(prog, res, sev)
     r6_stream_errors(prog, res, sev)
     r7_every_iteration_accounts(prog, res, sev)
     r3_merges(prog, res, sev)
